@@ -50,6 +50,9 @@ class Unknown(Exception):
     pass
 
 
+EV_FACTS = None      # set by run(): lets ev() look into small helper functions of the crate
+
+
 def ev(e, leaf):
     """evaluate an expression tree over the integers; `leaf(e)` gives the value of an input/constant or None"""
     v = leaf(e)
@@ -87,6 +90,20 @@ def ev(e, leaf):
             return -ev(args[0], leaf)
         if fn.endswith("ops::Not::not"):
             return 1 - ev(args[0], leaf)
+        # a small straight-line helper of the crate (`masked_local_product(a, b, l, r)`): its returned expression with
+        # the caller's operands substituted for its parameters
+        hb = EV_FACTS.bodies.get(fn) if EV_FACTS is not None else None
+        if hb is not None and not hb.coroutine and len(hb.blocks) <= 60 and not any(hb.term(x)["k"] == "switch" for x in hb.live_blocks()):
+            r = flow.expr_of(hb, {"cp": [0]}, max_depth=60)
+
+            def subst(x):
+                if isinstance(x, tuple):
+                    if len(x) == 2 and x[0] == "arg" and isinstance(x[1], int) and 1 <= x[1] <= len(args):
+                        return args[x[1] - 1]
+                    return tuple(subst(y) for y in x)
+                return x
+            if "('arg'" in str(r) and "('?'" not in str(r):
+                return ev(subst(r), leaf)
     if k == "const":
         s = str(e[1])
         if s.endswith("::ZERO"):
@@ -140,7 +157,9 @@ def deref_writes(b, upvar):
 
 
 def run(ctx):
+    global EV_FACTS
     facts = ctx.facts()
+    EV_FACTS = facts
     gadget_bit(ctx, facts, ADD + "bit_adder", "bit_adder", lambda x, y, c: ((x + y + c) % 2, 1 if x + y + c >= 2 else 0), "full adder")
     gadget_bit(ctx, facts, SUB + "bit_subtractor", "bit_subtractor", lambda x, y, c: ((x + (1 - y) + c) % 2, 1 if x + (1 - y) + c >= 2 else 0), "full adder of (x, !y, c)")
     gadget_or(ctx, facts)
